@@ -121,12 +121,8 @@ class ConveyorBelt(Edge):
           return len(self.belt.items)+len(self.belt.ready_items) == self.belt.capacity
 
     def can_get(self):
-        """Check if an item can be retrieved from the belt."""
-        #first_item_to_go_out = self.items[0] if self.items else None
-        if not self.out_buf.items:
-            return False
-        else:
-           return True
+        """Check if an item can be retrieved from the belt: an item waits at the exit that no granted retrieval holds."""
+        return len(self.belt.reservations_get) < len(self.belt.ready_items)
 
     def is_stalled(self):
           """Check if the belt is stalled due to time constraints."""
@@ -136,11 +132,8 @@ class ConveyorBelt(Edge):
             return False
 
     def can_put(self):
-        """Check if an item can be added to the belt."""
-        if not self.inp_buf.items:
-            return True
-        else:
-            return False
+        """Check if an item can be added to the belt: a space reservation issued now would be granted at once."""
+        return self.belt.can_reserve_put()
     
     def reserve_put(self):
     
